@@ -1243,9 +1243,11 @@ fn emit_fn(
     }
     // loop clauses
     let nloops = rw.loop_counter;
+    let mut skipped_loops: Vec<usize> = Vec::new();
     for (n, _) in &d.loops {
         if *n == 0 || *n > nloops {
-            die(&format!("LOST ANCHOR: {}::{} has {} loops, contract names loop {}", d.selector, d.name, nloops, n));
+            // the loop the clauses were written for is gone: nothing to attach them to (recorded; the proof decides)
+            skipped_loops.push(*n);
         }
     }
     let mut k = 0;
@@ -1285,7 +1287,7 @@ fn emit_fn(
     }
     // hints
     let mut skipped_hints: Vec<String> = Vec::new();
-    for h in &d.hints {
+    for (hidx, h) in d.hints.iter().enumerate() {
         // all matching sites (or only the nth when `#n` is given); hints are proof help, so a hint whose anchor does not
         // occur is skipped (recorded), never a reason to stop
         let mut sites: Vec<usize> = Vec::new();
@@ -1293,7 +1295,7 @@ fn emit_fn(
             // start of the function body (after the ghost parameter snapshots)
             let pos = body.iter().position(|l| !l.contains("/*vxparam*/") && !l.contains("/*vxguard*/")).unwrap_or(0);
             for (j, l) in h.lines.iter().enumerate() {
-                body.insert(pos + j, format!("{l} /*vxhint*/"));
+                body.insert(pos + j, format!("{l} /*vxhint*/ /*h{hidx}*/"));
             }
             continue;
         }
@@ -1326,12 +1328,12 @@ fn emit_fn(
                 let rest = l[p + 4..].trim_end();
                 if rest.ends_with('{') {
                     for (j, hl) in h.lines.iter().enumerate() {
-                        body.insert(at + 1 + j, format!("{hl} /*vxhint*/"));
+                        body.insert(at + 1 + j, format!("{hl} /*vxhint*/ /*h{hidx}*/"));
                     }
                 } else {
                     let expr = rest.trim_end_matches(',');
                     body[at] = format!("{} => {{ /*vxarm*/", &l[..p]);
-                    let mut ins: Vec<String> = h.lines.iter().map(|x| format!("{x} /*vxhint*/")).collect();
+                    let mut ins: Vec<String> = h.lines.iter().map(|x| format!("{x} /*vxhint*/ /*h{hidx}*/")).collect();
                     ins.push(format!("{expr} /*vxarm*/"));
                     ins.push("} /*vxarm*/".to_string());
                     for (j, hl) in ins.into_iter().enumerate() {
@@ -1348,10 +1350,10 @@ fn emit_fn(
                 let mut ins: Vec<String> = Vec::new();
                 if h.after {
                     ins.push(format!("let __vx_v = {expr}; /*vxarm*/"));
-                    ins.extend(h.lines.iter().map(|x| format!("{x} /*vxhint*/")));
+                    ins.extend(h.lines.iter().map(|x| format!("{x} /*vxhint*/ /*h{hidx}*/")));
                     ins.push("__vx_v /*vxarm*/".to_string());
                 } else {
-                    ins.extend(h.lines.iter().map(|x| format!("{x} /*vxhint*/")));
+                    ins.extend(h.lines.iter().map(|x| format!("{x} /*vxhint*/ /*h{hidx}*/")));
                     ins.push(format!("{expr} /*vxarm*/"));
                 }
                 ins.push("} /*vxarm*/".to_string());
@@ -1364,7 +1366,7 @@ fn emit_fn(
                 // tail expression of an arm block opened by an earlier hint
                 let expr = l.replace("/*vxarm*/", "").trim().to_string();
                 body[at] = format!("let __vx_v = {expr}; /*vxarm*/");
-                let mut ins: Vec<String> = h.lines.iter().map(|x| format!("{x} /*vxhint*/")).collect();
+                let mut ins: Vec<String> = h.lines.iter().map(|x| format!("{x} /*vxhint*/ /*h{hidx}*/")).collect();
                 ins.push("__vx_v /*vxarm*/".to_string());
                 for (j, hl) in ins.into_iter().enumerate() {
                     body.insert(at + 1 + j, hl);
@@ -1394,7 +1396,7 @@ fn emit_fn(
                     let ind: String = body[at].chars().take_while(|c| c.is_whitespace()).collect();
                     body[at] = format!("{ind}let __vx_v = {}", body[at].trim_start());
                     body[e] = format!("{}; /*vxarm*/", body[e].replace("/*vxarm*/", "").trim_end());
-                    let mut ins: Vec<String> = h.lines.iter().map(|x| format!("{x} /*vxhint*/")).collect();
+                    let mut ins: Vec<String> = h.lines.iter().map(|x| format!("{x} /*vxhint*/ /*h{hidx}*/")).collect();
                     ins.push(format!("{ind}__vx_v /*vxarm*/"));
                     for (j, hl) in ins.into_iter().enumerate() {
                         body.insert(e + 1 + j, hl);
@@ -1426,7 +1428,7 @@ fn emit_fn(
                 at
             };
             for (j, l) in h.lines.iter().enumerate() {
-                body.insert(pos + j, format!("{l} /*vxhint*/"));
+                body.insert(pos + j, format!("{l} /*vxhint*/ /*h{hidx}*/"));
             }
         }
     }
@@ -1522,7 +1524,7 @@ fn emit_fn(
         "file": d.file, "selector": d.selector, "name": d.name, "emitted_name": name.to_string(),
         "src_lines": [lines.0, lines.1], "src_text": orig,
         "gen_lines": [s, e], "body_start": bs, "canary_lines": [cs, ce],
-        "props": d.props, "skipped_hints": skipped_hints, "rewrites": rw.log, "loops": nloops, "trusted": d.trusted, "nocanary": d.nocanary,
+        "props": d.props, "skipped_hints": skipped_hints, "skipped_loop_clauses": skipped_loops, "rewrites": rw.log, "loops": nloops, "trusted": d.trusted, "nocanary": d.nocanary,
     }));
 }
 
